@@ -68,3 +68,9 @@ Proof.
   rewrite (edits_wl_off has_mono (monos_g true) gsA [eNoWL] histEd); [vm_compute; reflexivity|].
   repeat constructor.
 Qed.
+
+Lemma edit_stale_witness : exists gs es hs,
+  fst (run_hist has_mono (monos_g true) gs gs es hs []) <> hist_pure has_mono (monos_g true) gs gs es hs.
+Proof.
+  exists gsA, [eFull], histEd. destruct ex_edit_stale as (A & B). rewrite A, B. discriminate.
+Qed.
